@@ -121,6 +121,29 @@ def run(chk: Check):
                     chk.violation(f"later-lines-lost:{cid}:{f.name}", f"lines after @{cid}:{f.name}={v} were not processed", {"stream": list(stream), "chunks_at": []})
     dist["systematic_lines"] = chk.cov["evaluations"]
 
+    # (a') "all subsequent lines are still processed normally", across functions and objects: every odd text has by
+    # now been offered to (and possibly refused by) every function; the same text is a perfectly good value of
+    # the text functions, in a fresh set of objects too
+    from ynca import converters as C
+
+    text_funcs = [(cid, f) for cls, cid, funcs in infos0 for attr, f in funcs if type(f.converter) is C.StrConverter][:12]
+    for v in SC.ODD_VALUES:
+        stream = b"".join(f"@{cid}:{f.name}={v}\r\n".encode("utf-8") for cid, f in text_funcs) + SENTINEL
+        infos, conn, insts, proto, err = run_impl(stream, [])
+        chk.count_case(["odd-after-refusal", v], True)
+        if err:
+            chk.violation("later:raises", f"reader path raised {err[0]}: {err[1]}", {"stream": list(stream), "chunks_at": []})
+            continue
+        for cid, f in text_funcs:
+            try:
+                want = f.converter.to_value(v)
+            except Exception:  # noqa
+                continue
+            got = insts[cid].function_handlers[f.name].value
+            if got != want:
+                chk.violation(f"later-lines-lost:{cid}:{f.name}", f"after the text {v!r} had been refused as a value of other functions, the line @{cid}:{f.name}={v} was not processed normally: the attribute reads {got!r}", {"stream": list(stream), "chunks_at": [], "after": "the systematic pass: this text offered to every function of every class"})
+                break
+
     # (b) random streams
     for si in range(n_streams):
         stream, kinds = gen_stream(rng, infos0, rec_lines, chk.tier)
@@ -156,6 +179,46 @@ def run(chk: Check):
                 chunks.append(stream[prev:c])
                 prev = c
             model_cases.append((chunks, ids, final, bytes(proto.buffer)))
+
+    # (c) the same through the whole library: hostile and unknown lines arriving while YncaApi.initialize() runs
+    # (its own detection callback is on the reader path too) and afterwards
+    from .. import apiscen as AS
+
+    n_api = 24 if chk.tier == "quick" else 400
+    dist["api_sessions"] = n_api
+    hostile = ["@HDRADIO:AVAIL=Ready", "@FOO:AVAIL=Not Connected", "@:AVAIL=x", "@ZONE9:AVAIL=Ready", "@SYS:AVAIL=Ready", "@MAIN:AVAIL=bogus", "@MAIN:VOL=Auto Down", "@TUN:FMFREQ=Auto Down",
+               "@MAIN:BASIC=x", "junk", "@", "@A:B", "@SYS:MODELNAME=", "@MAIN:INP=\x00", "@NETRADIO:SONG=" + "z" * 400]
+    for k in range(n_api):
+        arng = random.Random(rng.randrange(1 << 30))
+        rx, present = AS.synthetic_receiver(arng, infos0)
+        s = AS.ApiSession(arng.randrange(1 << 30), rx, latency_us=arng.choice([0, 20000, 60000]), switch_prob=arng.choice([0.05, 0.3]))
+        lines = [arng.choice(hostile) for _ in range(arng.randrange(3, 14))]
+        bad_bytes = [b"@MAIN:ZONENAME=\xff\xfe", b"\x80\x80", b"@\xc3:AVAIL=Ready"]
+
+        def body(s, lines=lines, arng=arng):
+            api = s.make_api()
+            for ln in lines:
+                s.dev.emit_at(arng.randrange(0, 9_000_000), ln.encode("utf-8") + b"\r\n")
+            for b in bad_bytes:
+                if arng.random() < 0.4:
+                    s.dev.emit_at(arng.randrange(0, 9_000_000), b + b"\r\n")
+            s.call(api.initialize)
+            s.sleep(2.0)
+            s.still_connected = bool(api._connection.connected) if api._connection else False
+            api.close()
+
+        s.run(body)
+        chk.count_case(["api-hostile", k, lines], True)
+        rep = {"unsolicited_lines": lines, "seed": k}
+        if s.sim.failure is not None:
+            chk.violation("api:no-termination", f"initialize() with hostile unsolicited lines never came to rest: {s.sim.failure}", rep)
+        elif s.disconnects:
+            died = [e for e in s.sim.events if e["k"] == "ThreadDied"]
+            chk.violation("api:connection-lost", f"unsolicited lines {lines[:4]!r}... took the connection down during start-up (disconnect callback invoked{'; reader thread died with ' + died[0]['exc'] + ': ' + died[0]['msg'] if died else ''})", rep)
+        elif s.exc is not None:
+            chk.violation("api:initialize-raised", f"initialize() raised {type(s.exc).__name__}: {s.exc} on a device that answers every query, with unsolicited lines {lines[:4]!r}...", rep)
+        elif not getattr(s, "still_connected", True):
+            chk.violation("api:connection-lost", "the connection reports not connected after start-up with hostile unsolicited lines", rep)
 
     validated = 0
     if not any(b["obligation"].startswith(("translator", "compile")) for b in chk.broken):
